@@ -158,8 +158,26 @@ func sum(a []int) int {
 
 var (
 	keyA = detKey("node-A")
-	keyB = detKey("node-B")
+	keyB = smallLengthKey()
 )
+
+// smallLengthKey returns B's node key.  The handshake reads a 4-byte
+// little-endian length and allocates that many bytes before reading the auth
+// message; when a man in the middle reflects B's own auth-body frame into the
+// place of A's length frame, that "length" would be the type byte and the
+// first three bytes of B's public key if the frame ever decrypted (it does not
+// on the unchanged tree, but it does under a nonce mutation).  A key whose
+// public key has zero second and third bytes keeps that allocation below 64 KiB,
+// so that no case can make the harness allocate gigabytes.
+func smallLengthKey() crypto.PrivKeyEd25519 {
+	for i := 3763; ; i++ {
+		k := detKey(fmt.Sprintf("node-B-%d", i))
+		p := k.PubKey().(crypto.PubKeyEd25519)
+		if p[1] == 0 && p[2] == 0 {
+			return k
+		}
+	}
+}
 
 func orOK(s string) string {
 	if s == "" {
